@@ -93,6 +93,22 @@ func (c04) Run(t *tape.Tape, tier Tier) *Result {
 		typeName string
 	}
 	var fin, ctl finalObs
+	type uObs struct {
+		shape string
+		texts []string
+		types []string
+	}
+	h1At := map[int]uObs{} // hop -> observation at that intermediary under H1
+	obsOf := func(e error) uObs {
+		var o uObs
+		nodes := obs.Tree(e, false)
+		o.shape = obs.Shape(nodes)
+		for _, n := range nodes {
+			o.texts = append(o.texts, n.Text)
+			o.types = append(o.types, n.GoType)
+		}
+		return o
+	}
 	observeFinal := func(d *world.Delivery) finalObs {
 		return finalObs{tree: obs.Tree(d.Err, true), isRow: obs.IsRow(d.Err, refErrs), acc: obs.Accessors(d.Err),
 			plusV: obs.Fmt("%+v", d.Err), v: obs.Fmt("%v", d.Err), ok: true}
@@ -116,6 +132,7 @@ func (c04) Run(t *tape.Tape, tier Tier) *Result {
 			return
 		}
 		// ---- at an unknowing intermediary
+		h1At[d.Msg.Hop] = obsOf(d.Err)
 		got := obs.Tree(d.Err, false)
 		sim.Logf("obs %s", obs.Shape(got))
 		var wire1 []*world.WireNode
@@ -227,6 +244,56 @@ func (c04) Run(t *tape.Tape, tier Tier) *Result {
 		}
 	} else if len(res.Violations) == 0 {
 		res.add(Violation{Prop: "C04", Oracle: "route-incomplete", Culprit: "harness", Expected: "final and control deliveries", Observed: fmt.Sprint(fin.ok, ctl.ok)})
+	}
+	// ---- cross-check of hook H1 against the hook-free simulation of an
+	// unknowing process: the same route is replayed at fully knowing
+	// processes with the families unknown to U_j renamed on the wire
+	// (inbound: X -> X#u, outbound: back). Both simulations must observe
+	// the same thing; a disagreement is a harness problem, never a violation.
+	if (tier == Thorough || t.Bool(1, 4)) && len(res.Violations) == 0 && fin.ok {
+		world.Full().Install()
+		data := m1
+		for j := 1; j <= m && res.Trouble == ""; j++ {
+			prof := sim.Procs[j].Prof
+			in, err := world.RenameFamilies(data, func(f string) bool { return !prof.Knows(f) }, true)
+			if err != nil {
+				res.Trouble = "rename: " + err.Error()
+				break
+			}
+			e, p := obs.Decode(in)
+			if p != "" || e == nil {
+				res.Trouble = "rename-xcheck decode: " + p
+				break
+			}
+			o := obsOf(e)
+			h := h1At[j]
+			if o.shape != h.shape || fmt.Sprintf("%q", o.texts) != fmt.Sprintf("%q", h.texts) || fmt.Sprint(o.types) != fmt.Sprint(h.types) {
+				res.Trouble = fmt.Sprintf("H1 and wire renaming disagree at hop %d (%s): H1 %s %q %v / renaming %s %q %v", j, prof.Name, h.shape, h.texts, h.types, o.shape, o.texts, o.types)
+				break
+			}
+			out, p2 := obs.Encode(e)
+			if p2 != "" {
+				res.Trouble = "rename-xcheck encode: " + p2
+				break
+			}
+			if data, err = world.RenameFamilies(out, nil, false); err != nil {
+				res.Trouble = "rename back: " + err.Error()
+			}
+		}
+		if res.Trouble == "" {
+			if e, p := obs.Decode(data); p == "" && e != nil {
+				o := obsOf(e)
+				var ft, fy []string
+				for _, n := range fin.tree {
+					ft = append(ft, n.Text)
+					fy = append(fy, n.GoType)
+				}
+				if o.shape != obs.Shape(fin.tree) || fmt.Sprintf("%q", o.texts) != fmt.Sprintf("%q", ft) || fmt.Sprint(o.types) != fmt.Sprint(fy) || obs.IsRow(e, refErrs) != fin.isRow {
+					res.Trouble = fmt.Sprintf("H1 and wire renaming disagree at the final knowing process: %q %v / %q %v", ft, fy, o.texts, o.types)
+				}
+			}
+			sim.Stats.Faults["rename-xcheck"]++
+		}
 	}
 	res.Stats = sim.Stats
 	res.LogDigest = sim.LogDigest()
